@@ -72,7 +72,7 @@ def run(tier, rep):
     data = bytes(rnd.randrange(256) for _ in range(2600))
     tr.add(data, [1] * 2600, [("read", 1200), ("read", 1029), ("read", 300)], 0, 1, withfail=False, nrecv=2600, ncalls=3)
     tr.add(data, [2] * 1300, [("read", 2500)], 0, 4096, withfail=False, nrecv=1300, ncalls=1)
-    verdicts = tr.judge()
+    verdicts = tr.judge(always_env=True)
     for tid, v in verdicts.items():
         m = tr.meta[tid]
         rep.case(digest([m["data"].hex(), str(m["script"]), str(m["calls"]), m["bufsize"]]), nontrivial=m["nrecv"] >= 3 and m["ncalls"] >= 2)
